@@ -2,6 +2,7 @@ package props
 
 import (
 	"fmt"
+	"go/constant"
 	"go/token"
 	"go/types"
 	"strconv"
@@ -13,7 +14,7 @@ import (
 )
 
 func init() {
-	register("C18", "Structural clauses of link following: in the resolver every recursive call is preceded by the membership test of the current path in the resolved set (a hit returns), and by the insertion of that path, so that each recursion level adds a symlink path not seen before; FollowLinks sorts before de-duplicating and returns the de-duplicated list; de-duplication returns no filter for the root and uses a separator-terminated prefix; a relative link is re-rooted with a Join whose first element is the separator and an absolute one is cleaned; requested paths are re-rooted with Join(\".\", p); NewFilterFS feeds the resolved targets into the include patterns the include matcher is built from. Does not decide termination of the component loop, closure or minimality of the result.", runC18)
+	register("C18", "Structural clauses of link following: in the resolver every recursive call is preceded by the membership test of the current path in the resolved set (a hit returns), and by the insertion of that path, so that each recursion level adds a symlink path not seen before; FollowLinks sorts before de-duplicating and returns the de-duplicated list; de-duplication returns no filter for the root and uses a separator-terminated prefix; a relative link is re-rooted with a Join whose first element is the separator and an absolute one is cleaned; requested paths are re-rooted with Join(containsWildcards answers true exactly when a character is one of * ? [ (polarity of each test and of their connective), and the escape step is live on this platform. \".\", p); NewFilterFS feeds the resolved targets into the include patterns the include matcher is built from. Does not decide termination of the component loop, closure or minimality of the result.", runC18)
 }
 
 func runC18(c *Ctx) {
@@ -80,6 +81,71 @@ func wildcardChars(c *Ctx, rule, fnName string) {
 			}
 		}
 	}
+	// ... with the right polarity: when no test says "is a metacharacter" the
+	// answer true is unreachable, and when one of them does (and the character
+	// is not a backslash) the scan does not move on to the next character
+	var tests, escs []*ssa.BinOp
+	eng.InstrsShallow(fn, func(in ssa.Instruction) {
+		bo, ok := in.(*ssa.BinOp)
+		if !ok || (bo.Op != token.EQL && bo.Op != token.NEQ) {
+			return
+		}
+		for _, y := range []ssa.Value{bo.X, bo.Y} {
+			if k, isK := eng.ConstInt(y); isK {
+				switch k {
+				case '*', '?', '[':
+					tests = append(tests, bo)
+				case '\\':
+					escs = append(escs, bo)
+				}
+			}
+		}
+	})
+	if len(tests) > 0 {
+		pol := c.explorer(fn)
+		pin := func(x *eng.Explorer, is *ssa.BinOp) map[string]bool {
+			as := map[string]bool{}
+			for _, t := range tests {
+				as[x.RegKey(t)] = (t.Op == token.EQL) == (t == is)
+			}
+			for _, e := range escs {
+				as[x.RegKey(e)] = e.Op != token.EQL
+			}
+			return as
+		}
+		pol.Assume = pin(pol, nil)
+		pol.Target = func(in ssa.Instruction, st *eng.State) bool {
+			r, ok := in.(*ssa.Return)
+			if !ok || len(r.Results) != 1 {
+				return false
+			}
+			k, isK := r.Results[0].(*ssa.Const)
+			return isK && k.Value != nil && constant.BoolVal(k.Value)
+		}
+		pol.StopAtTarget = true
+		hits := pol.Run()
+		bad := ""
+		if len(hits) > 0 && !pol.Exhausted {
+			bad = "answers true for a name without any metacharacter"
+		}
+		for _, t := range tests {
+			y := c.explorer(fn)
+			y.Assume = pin(y, t)
+			y.Target = func(in ssa.Instruction, st *eng.State) bool {
+				b, ok := in.(*ssa.BinOp)
+				if !ok || b.Op != token.ADD {
+					return false
+				}
+				k, isK := eng.ConstInt(b.Y)
+				return isK && k == 1
+			}
+			y.StopAtTarget = true
+			if hs := y.Run(); len(hs) > 0 && !y.Exhausted && bad == "" {
+				bad = "moves on to the next character although the current one is a metacharacter"
+			}
+		}
+		c.R.Check(bad == "", rule, c.name(fn)+"/polarity", c.P.Pos(fn.Pos()), "true exactly when a character is a metacharacter", c.name(fn)+" "+bad+" (a test inverted or the alternatives joined by the wrong connective)")
+	}
 	c.R.Check(missing == "", rule, c.name(fn)+"/metacharacters", c.P.Pos(fn.Pos()), "recognises * ? [", c.name(fn)+" does not recognise "+strconv.Quote(missing)+" as a wildcard: such a name is looked up literally and silently not found")
 	if c.P.GOOS != "windows" {
 		// ... by an extra step of the index that is taken only for a backslash
@@ -107,7 +173,16 @@ func wildcardChars(c *Ctx, rule, fnName string) {
 			}
 			isIt := func(i2 ssa.Instruction) bool { return i2 == ssa.Instruction(bo) }
 			if hit, und := c.ReachableUnder(fn, no, nil, isIt); hit == nil && !und {
-				skips = true
+				// ... and is taken for a backslash (on this platform the
+				// escape is live: a platform test with the wrong polarity
+				// makes the step dead code)
+				yes := map[string]bool{}
+				for _, k := range esc {
+					yes[k] = true
+				}
+				if hit2, und2 := c.ReachableUnder(fn, yes, nil, isIt); hit2 != nil || und2 {
+					skips = true
+				}
 			}
 		})
 		c.R.Check(skips, rule, c.name(fn)+"/escape-skips", c.P.Pos(fn.Pos()), "the character after a backslash is skipped", c.name(fn)+" does not step over the character that follows a backslash: an escaped metacharacter is taken for a wildcard")
